@@ -13,6 +13,11 @@ from bodies import AttrTable, Tokens, enc, enc_pairs, gen_ical, gen_vcard, INVAL
 from common import run_driver, scratch_dir
 from httpdrv import make_server, parse_multistatus
 
+def penc(s):
+    """the Lean codec's percent-encoding (everything but [A-Za-z0-9._-])"""
+    return urllib.parse.quote(s, safe="").replace("~", "%7E")
+
+
 DAV = "{DAV:}"
 CAL = "/user/calendars/calendar"
 BOOK = "/user/contacts/addressbook"
@@ -142,6 +147,184 @@ class HttpImpl:
                 self.notes.append("C03:304-with-body")
             return "notmodified"
         return self.write_obs(r, created=False)
+
+    # multiget ---------------------------------------------------------------
+    def expand_href(self, sel):
+        """selector -> (text of the DAV:href element or None, the href the answer must carry,
+        expectation): ("get", request-target) = whatever GET of that target serves;
+        ("notfound",) by construction; ("nodata",) a collection; ("unjudged",)."""
+        import posixpath
+        p0 = self.prefix.rstrip("/")
+        q = urllib.parse.quote
+        kind = sel[0]
+        if kind == "member":
+            return p0 + q(sel[1]), p0 + sel[1], ("get", p0 + q(sel[1]))
+        if kind == "variant":   # every second character escaped, lower-case hex digits
+            out = []
+            for i, ch in enumerate(sel[1]):
+                if ch != "/" and i % 2 == 0:
+                    out.append("".join("%%%02x" % b for b in ch.encode("utf-8")))
+                else:
+                    out.append(q(ch))
+            return p0 + "".join(out), p0 + sel[1], ("get", p0 + q(sel[1]))
+        if kind == "abs":
+            return "http://localhost" + sel[2] + p0 + q(sel[1]), p0 + sel[1], ("get", p0 + q(sel[1]))
+        if kind == "otherhost":
+            return "https://other.example" + p0 + q(sel[1]), p0 + sel[1], ("unjudged",)
+        if kind == "dots":
+            d, b = posixpath.split(sel[1])
+            text = p0 + q(d) + "/zz/../" + ("./" if len(b) % 2 else "") + q(b)
+            return text, urllib.parse.unquote(text), ("get", p0 + q(sel[1]))
+        if kind == "query":     # a query or fragment on the href is not part of the path
+            return p0 + q(sel[1]) + sel[2], p0 + sel[1], ("get", p0 + q(sel[1]))
+        if kind == "outside":   # literal text that (for a non-root mount point) does not lie below it
+            u = urllib.parse.urlsplit(sel[1])
+            key = urllib.parse.unquote(u.path)
+            if u.netloc:
+                return sel[1], key, ("unjudged",)
+            if u.path == p0 or u.path.startswith(p0 + "/"):
+                return sel[1], key, ("get", u.path)
+            return sel[1], key, ("notfound",)
+        if kind == "lookalike":
+            if p0:
+                text = p0 + "x" + q(sel[1])
+            else:
+                text = q(sel[1].lstrip("/"))          # a relative reference
+            return text, urllib.parse.unquote(text), ("notfound",)
+        if kind == "empty":
+            return None, "None", ("notfound",)
+        if kind == "git":
+            text = p0 + q(sel[1])
+            return text, p0 + sel[1], ("notfound",)
+        if kind == "coll":
+            if p0 + sel[1] == "":
+                return None, "None", ("notfound",)
+            return p0 + q(sel[1]), p0 + sel[1], ("nodata",)
+        raise ValueError(sel)
+
+    def multiget(self, cpath, rkind, sels):
+        import xml.sax.saxutils as sx
+        ns = "urn:ietf:params:xml:ns:caldav" if rkind == "calendar" else "urn:ietf:params:xml:ns:carddav"
+        data_tag = "{%s}%s" % (ns, "calendar-data" if rkind == "calendar" else "address-data")
+        want_ct = "text/calendar" if rkind == "calendar" else "text/vcard"
+        exp = [self.expand_href(sel) for sel in sels]
+        body = ('<X:%s-multiget xmlns:D="DAV:" xmlns:X="%s"><D:prop><D:getetag/><X:%s/></D:prop>%s</X:%s-multiget>' % (
+            rkind, ns, data_tag.split("}")[1],
+            "".join("<D:href/>" if t is None else "<D:href>%s</D:href>" % sx.escape(t) for t, _, _ in exp), rkind))
+        op = "MULTIGET %s %s %s" % (enc(self.prefix), rkind, " ".join(enc(t) for t, _, _ in exp))
+
+        def ask(body):
+            r = self.srv.request("REPORT", self.target(cpath + "/"), {"Depth": "0", "Content-Type": "text/xml"},
+                                 body.encode("utf-8"))
+            ms = parse_multistatus(r.body) if r.status == 207 else None
+            if ms is None:
+                return None, r
+            items = []
+            for it in ms[0]:
+                key = urllib.parse.unquote(it["href"] or "")
+                if it["status"] == "404":
+                    items.append((key, None))
+                    continue
+                e = it["props"].get(DAV + "getetag")
+                d = it["props"].get(data_tag)
+                etag = e[1].text if e and e[0] == "200" else None
+                data = (d[1].text or "") if d and d[0] == "200" else None
+                items.append((key, (etag, data)))
+            return items, r
+
+        items, r = ask(body)
+        if items is None:
+            if r.status >= 500:
+                self.errors.append((r.status, r.body[:400]))
+                self.notes.append("C17:multiget-failed status %d for hrefs %r" % (r.status, [t for t, _, _ in exp]))
+            return op + " | error%d" % r.status
+        norm = lambda b: b.replace(b"\r\n", b"\n")
+        # -- by-construction monitor ------------------------------------------------------
+        keys = [k for k, _ in items]
+        wanted = {}
+        for t, k, e in exp:
+            if k not in wanted or wanted[k][0] == "unjudged":
+                wanted[k] = e
+        for k in set(keys):
+            if keys.count(k) > 1:
+                self.notes.append("C17:href-answered-more-than-once %r" % k)
+        for k in wanted:
+            if k not in keys:
+                self.notes.append("C17:requested-href-not-answered %r (answers: %r)" % (k, keys))
+        out = []
+        gets = {}
+        for k, ans in sorted(items, key=lambda x: x[0]):
+            e = wanted.get(k)
+            if e is None:
+                self.notes.append("C17:answer-for-an-href-that-was-not-requested %r" % k)
+                e = ("unjudged",)
+            gbody = None
+            if e[0] == "get":
+                if e[1] not in gets:
+                    gets[e[1]] = self.srv.request("GET", e[1])
+                g = gets[e[1]]
+                getag = g.header("ETag") if g.status == 200 else None
+                gct = (g.header("Content-Type") or "").split(";")[0].strip()
+                exists = g.status == 200 and getag is not None
+                if not exists and g.status == 200:
+                    # a collection or page: rendered as HTML, never data
+                    if ans is not None and ans[1] is not None:
+                        self.notes.append("C17:data-for-a-resource-that-is-not-a-member %r" % k)
+                elif not exists:
+                    if ans is not None:
+                        self.notes.append("C17:answer-other-than-404-for-an-href-GET-answers-%d %r: %r" % (g.status, k, ans))
+                else:
+                    gbody = g.body
+                    if ans is None:
+                        self.notes.append("C17:existing-member-answered-404 %r" % k)
+                    else:
+                        if ans[0] != getag:
+                            self.notes.append("C17:etag-differs-from-GET %r: %r vs %r" % (k, ans[0], getag))
+                        if gct == want_ct:
+                            if ans[1] is None:
+                                self.notes.append("C17:no-data-for-an-existing-member %r" % k)
+                            elif norm(ans[1].encode("utf-8")) != norm(g.body):
+                                self.notes.append("C17:data-differs-from-GET %r" % k)
+                        elif ans[1] is not None:
+                            self.notes.append("C17:data-for-a-resource-of-another-kind %r (%s)" % (k, gct))
+            elif e[0] == "notfound":
+                if ans is not None and (ans[1] is not None or ans[0] is not None):
+                    self.notes.append("C17:resource-served-for-an-href-outside-the-namespace %r: etag %r data %s" % (
+                        k, ans[0], "yes" if ans[1] is not None else "no"))
+                elif ans is not None:
+                    self.notes.append("C17:status-other-than-404-for-an-href-outside-the-namespace %r" % k)
+            elif e[0] == "nodata":
+                if ans is not None and ans[1] is not None:
+                    self.notes.append("C17:data-for-a-collection %r" % k)
+            # canonical answer
+            if ans is None:
+                out.append(penc(k) + ":404")
+            else:
+                etag, data = ans
+                se = "~"
+                if etag is not None:
+                    sym = self.sym_etag(etag)
+                    se = penc("ctag" if "?" in sym[:2] else sym)
+                sd = "~"
+                if data is not None:
+                    if gbody is not None and norm(data.encode("utf-8")) == norm(gbody):
+                        sd = penc(self.toks.tok(gbody))
+                    else:
+                        match = [t for t, b in self.toks.data.items() if norm(b) == norm(data.encode("utf-8"))]
+                        sd = penc(match[0]) if match else "%3Funknown"
+                out.append("%s:200;%s;%s" % (penc(k), se, sd))
+        # -- independence: each href asked alone gets the same answer -----------------------
+        if len(exp) > 1:
+            for t, k, e in exp[:6]:
+                one = ('<X:%s-multiget xmlns:D="DAV:" xmlns:X="%s"><D:prop><D:getetag/><X:%s/></D:prop>%s</X:%s-multiget>' % (
+                    rkind, ns, data_tag.split("}")[1], "<D:href/>" if t is None else "<D:href>%s</D:href>" % sx.escape(t), rkind))
+                alone, _r = ask(one)
+                together = [a for kk, a in items if kk == k]
+                if alone is None or len(alone) != 1 or not together or alone[0][1] != together[0]:
+                    self.notes.append("C17:answer-depends-on-the-other-hrefs %r: alone %r, together %r" % (
+                        k, alone and [a if a is None else (a[0], a[1] and len(a[1])) for _, a in alone],
+                        [a if a is None else (a[0], a[1] and len(a[1])) for a in together]))
+        return op + " | mg =" + ",".join(out)
 
     TAGPROPS = (b'<?xml version="1.0"?><D:propfind xmlns:D="DAV:" xmlns:CS="http://calendarserver.org/ns/"><D:prop>'
                 b'<CS:getctag/><D:getctag/><D:sync-token/><D:getetag/></D:prop></D:propfind>')
@@ -486,6 +669,10 @@ def execute_http(frontend, prefix, template, toks, attrs, audit_paths, colls=(CA
                     for t in foreign:
                         lines.append("SYNC %s !%s | %s" % (enc(cpath), urllib.parse.quote(t, safe=""),
                                                            impl.sync(cpath, t)))
+                continue
+            elif kind == "MULTIGET":
+                _, cpath, rkind, sels = op
+                lines.append(impl.multiget(cpath, rkind, sels))
                 continue
             elif kind == "restart":
                 impl.srv.restart()
